@@ -62,8 +62,8 @@ pub fn run_case(case: &Case, out: &mut String) {
     }
     let mut tick: u64 = 0;
     let mut last_keys: Vec<u16> = vec![];
+    let mut o = String::new();
     let res = std::panic::catch_unwind(std::panic::AssertUnwindSafe(|| {
-        let mut o = String::new();
         let layout: &mut kanata_parser::cfg::BorrowedKLayout<'static> =
             unsafe { std::mem::transmute(cfg.layout.bm()) };
         for tok in case.hist.iter() {
@@ -111,11 +111,11 @@ pub fn run_case(case: &Case, out: &mut String) {
             layout.action_queue.len(),
         )
         .unwrap();
-        o
     }));
     match res {
-        Ok(o) => out.push_str(&o),
+        Ok(()) => out.push_str(&o),
         Err(e) => {
+            out.push_str(&o);
             let msg = if let Some(s) = e.downcast_ref::<String>() {
                 s.clone()
             } else if let Some(s) = e.downcast_ref::<&str>() {
